@@ -145,6 +145,15 @@ theorem index_key_equal_values (i : Nat) (a b : OV) (n m : Nat) (ha : Valid a) (
   unfold encIndexKey
   rw [enc_eq_of_eqv a b ha hb h, List.append_assoc, List.append_assoc, bytesLt_append_same, bytesLt_append_same]
 
+/-- … so the index key is strictly monotone in the pair (value, node id), lexicographically: the index is a
+    sorted multimap value ↦ node ids, for all values and all 64-bit node ids -/
+theorem index_key_lex (i : Nat) (a b : OV) (n m : Nat) (ha : Valid a) (hb : Valid b) (hm : m < 256 ^ 8)
+    (h : lt a b ∨ (eqv a b ∧ n < m)) :
+    bytesLt (encIndexKey i a n) (encIndexKey i b m) = true := by
+  rcases h with h | ⟨he, hn⟩
+  · exact index_key_order i a b n m ha hb h
+  · rw [index_key_equal_values i a b n m ha hb he]; exact beBytes_lt 8 n m hn hm
+
 /-! ### the Spec's float order IS the IEEE-754 order (link to the dyadic float model `Nervus.F64`) -/
 
 /-- **C27 (float order = IEEE order)**: on non-NaN doubles the Spec's `lt` (sign-magnitude key `fkey`) is exactly
